@@ -20,7 +20,7 @@
 #ifdef C08_DEBUG
 #include <cstdio>
 #endif
-#include "hk_nested.h"
+#include "hk_c09.h"
 
 #include <hgraph/lib/std/operators/control.h>
 
@@ -153,7 +153,7 @@ struct NestedTop {
     static constexpr auto name = "c08_nested";
     static void compose(Wiring &w) {
         auto s = wire<Src>(w);
-        auto p = hk::nested1<NestedBody>(w, s);
+        auto p = hk::c09::nested1<NestedBody>(w, s);
         wire<ProdRec<0>>(w, p);
     }
 };
